@@ -15,7 +15,8 @@ pub fn gen_program(rng: &mut Rng, return_in_for: bool) -> (Vec<String>, bool, us
     let mut stmts: Vec<Vec<String>> = vec![];
     for k in 0..nf {
         let name = format!("f{}", k);
-        let arity = g.rng.below(3);
+        // mostly 0-2 parameters; one function in eight takes 9-12 (two-digit parameter names)
+        let arity = if g.rng.chance(1, 8) { 9 + g.rng.below(4) } else { g.rng.below(3) };
         let scoped = g.rng.chance(1, 2);
         // leaf functions (usable in condition position) make no calls
         let leaf = g.rng.chance(1, 2);
@@ -34,7 +35,12 @@ pub fn gen_program(rng: &mut Rng, return_in_for: bool) -> (Vec<String>, bool, us
             body[0] = format!("B{}", nb + 1);
             body.push("R".into());
             body.push(enc_str(g.rng.pick_s(&KW_RET)));
-            body.push(match g.rng.below(3) { 0 => "-".to_string(), 1 => enc_str("${1}"), _ => enc_str("val") });
+            body.push(if arity >= 9 {
+                // the tail of the parameter list, incl. the last one
+                enc_str(&format!("${{8}}|${{9}}|${{10}}|${{{}}}", arity))
+            } else {
+                match g.rng.below(3) { 0 => "-".to_string(), 1 => enc_str("${1}"), _ => enc_str("val") }
+            });
         }
         g.in_fn = false;
         s.extend(body);
@@ -89,8 +95,13 @@ impl Prop for C05Prop {
     fn outcome_kind(&self, imp: &str) -> String {
         imp.split(' ').nth(1).map(|s| s.trim_start_matches("M:").split('_').next().unwrap_or("").to_string()).unwrap_or("odd".into())
     }
-    fn known(&self, req: &str, _model: &str, _imp: &str) -> Option<String> {
-        // a `return` lexically inside a for-in body leaves the loop's iteration state behind
+    fn known(&self, req: &str, model: &str, imp: &str) -> Option<String> {
+        // a `return` lexically inside a for-in body leaves the loop's iteration state behind.
+        // Recorded only as long as the code fails EXACTLY as the goto-machine model (which
+        // reproduces the defect) predicts: any other behaviour on such a program is a new violation.
+        if model != imp {
+            return None;
+        }
         let toks: Vec<&str> = req.split(' ').nth(1)?.split(';').collect();
         if return_inside_for(&toks) { Some("C05/return-inside-for".to_string()) } else { None }
     }
